@@ -446,3 +446,21 @@ func verifH_C01_string_utf8() {
 	verifAssert((err == nil) == want, "C01 string length: accepted iff the number of characters is within minLength..maxLength")
 	verifReach("end")
 }
+
+//verif:harness id=C01 tier=quick,thorough witness=end bounds="annotations: object {properties {a: number+minimum, b: string}, required subset of {a,b}} whose properties carry readOnly / writeOnly / deprecated flags (each symbolic) x value over keys {a,b}; validated plainly (neither as request nor as response) the flags change nothing: accept iff the reference evaluator, which does not know them, accepts"
+func verifH_C01_annotations() {
+	m := verifFiniteFloat("amin")
+	a := &Schema{Type: &Types{"number"}, Min: &m, ReadOnly: verifNondetBool("aRO"), WriteOnly: verifNondetBool("aWO"), Deprecated: verifNondetBool("aDep")}
+	b := &Schema{Type: &Types{"string"}, ReadOnly: verifNondetBool("bRO"), WriteOnly: verifNondetBool("bWO")}
+	s := &Schema{Type: &Types{"object"}, Properties: Schemas{"a": {Value: a}, "b": {Value: b}}}
+	req := verifChoose("required", 4)
+	for i, k := range []string{"a", "b"} {
+		if req&(1<<i) != 0 {
+			s.Required = append(s.Required, k)
+		}
+	}
+	v := verifObjectValue("v", []string{"a", "b"}, 1)
+	err := verifVisit(s, v, 0)
+	verifAssert((err == nil) == verifRef(s, v), "C01 annotations: readOnly / writeOnly / deprecated do not change the verdict of a plain validation")
+	verifReach("end")
+}
